@@ -30,6 +30,7 @@ enum verif_trace_kind {
 	VT_MSG_FREE,     ///< a: message buffer released
 	VT_STATS_GVT,    ///< a: bits of the GVT value recorded in the statistics
 	VT_EXTRACT,      ///< a: message extracted from the queue, b: bits of its timestamp
+	VT_GVT_PHASE,    ///< a: thread phase left, b: thread phase entered, c: bits of the accumulator / published value
 };
 
 #ifdef ROOTSIM_VERIF
